@@ -298,6 +298,27 @@ class C12(Check):
                 if got != exp:
                     acc.violation('event-filter-wrong-subsequence:class-subclass-number-collision', {'kind': 'collide', 'classes': C, 'subclasses': S},
                                   {'got': [hex(g[5]) for g in got], 'expected': [hex(x[5]) for x in exp]})
+        # the FORMATTED event listing: the lines of a filtered listing are the lines the unfiltered listing gives for the same events
+        # (a stream in which a thread declares another one: the declaration is itself an event a filter may remove)
+        ids2 = [(1, 0x07000004, (9, 55, 0, 0)), (9, 0x040c0050 | 1, (0, 0, 0, 0)), (1, 0x07010004, None), (9, 0x040c0050 | 2, (0, 5, 0, 0)), (1, 0x01400000, (1, 2, 3, 4))]
+        recs2 = [B.rec(200 + i, a if a is not None else (0, 0, 0, 0), t, e, data=(b'kid'.ljust(32, b'\0') if a is None else None)) for i, (t, e, a) in enumerate(ids2)]
+        blob2 = B.v2([(1, 10, 'A')], 0, recs2)
+        full = PyKdebugParser()
+        full_lines = list(full.formatted_kevents(io.BytesIO(blob2)))
+        for T in (None, 1, 9):
+            for C in ([], [4], [7], [1, 4]):
+                for S in ([], [0x40c], [0x700], [0x701]):
+                    f = PyKdebugParser()
+                    f.filter_tid, f.filter_class, f.filter_subclass = T, C, S
+                    try:
+                        got = list(f.formatted_kevents(io.BytesIO(blob2)))
+                    except Exception as ex:
+                        got = 'RAISED ' + type(ex).__name__
+                    exp = [l for l, (t, e, a) in zip(full_lines, ids2) if (T is None or t == T) and (not (C or S) or (e >> 24) in C or (e >> 16) in S)]
+                    acc.case(nontrivial=True, transitions=2, state=h64(('fmt', T, tuple(C), tuple(S))))
+                    if got != exp:
+                        acc.violation('formatted-event-lines-differ-from-unfiltered-lines', {'kind': 'collide', 'tid': T, 'classes': C, 'subclasses': S},
+                                      {'got': got if isinstance(got, str) else got[:2], 'expected': exp[:2]})
         for grow in ('class-append', 'subclass-append', 'class-iadd'):
             a, b = PyKdebugParser(), PyKdebugParser()
             if grow == 'class-append':
